@@ -181,8 +181,18 @@ Proof.
     destruct (fetch_d ed c 1) as [vc|] eqn:Fc; [|exact I].
     destruct (fetch_d ed a t) as [x|] eqn:Fa; [|exact I].
     destruct (fetch_d ed b t) as [y|] eqn:Fb; [|exact I].
-    cbn [exec_i]. rewrite (fetch_rel _ _ _ _ _ _ _ HR Fc Gc), (fetch_rel _ _ _ _ _ _ _ HR Fa Ga), (fetch_rel _ _ _ _ _ _ _ HR Fb Gb).
-    eexists; split; [reflexivity|]. apply Rel_set_var; assumption.
+    cbn [exec_i].
+    assert (Ec : i_eval ei oc = Some vc).
+    { pose proof (fetch_rel _ _ _ _ _ _ _ HR Fc Gc) as F. unfold fetch_i in F.
+      destruct (i_eval ei oc) as [z|]; [|discriminate]. destruct (in_ty 1 z); [exact F | discriminate]. }
+    assert (Ea : i_eval ei oa = Some x).
+    { pose proof (fetch_rel _ _ _ _ _ _ _ HR Fa Ga) as F. unfold fetch_i in F.
+      destruct (i_eval ei oa) as [z|]; [|discriminate]. destruct (in_ty t z); [exact F | discriminate]. }
+    assert (Eb : i_eval ei ob = Some y).
+    { pose proof (fetch_rel _ _ _ _ _ _ _ HR Fb Gb) as F. unfold fetch_i in F.
+      destruct (i_eval ei ob) as [z|]; [|discriminate]. destruct (in_ty t z); [exact F | discriminate]. }
+    rewrite Ec. destruct (Z.odd vc); [rewrite Ea | rewrite Eb];
+      (eexists; split; [reflexivity|]; apply Rel_set_var; assumption).
   - (* alloca *) destruct (vm_get V n); [|discriminate]. inversion Hc; subst p. exact I.
   - (* load *) destruct (vm_get V p0); [|discriminate]. inversion Hc; subst p. exact I.
   - (* store *) destruct (vm_get V v); [|discriminate]. cbn [bind] in Hc. destruct (vm_get V p0); [|discriminate].
